@@ -59,7 +59,9 @@ pub mod site {
     pub const RUN_END: u32 = 26;
     pub const INFLIGHT_PUSH: u32 = 27; // before an in-flight index is recorded (arg: index)
     pub const RUN_SCORE_ITEM: u32 = 28; // before an item of the snapshot is scored (arg: index)
-                                        // Nucleo::tick
+    /// the spawned job is done: lock released, post-unlock notification check made (arg: 1 if it notified)
+    pub const RUN_JOB_DONE: u32 = 29;
+    // Nucleo::tick
     pub const TICK_AFTER_CLEAR: u32 = 40;
     pub const TICK_BEFORE_BLOCKING_LOCK: u32 = 41;
     pub const TICK_TRYLOCK_FAILED: u32 = 42;
